@@ -45,6 +45,14 @@ RebuildFinger(r) ==
   ELSE IF r.gen # "ok" THEN {<<"C11", "default-constructor-program-rejected", "rebuild", r.id>>}
   ELSE IF ~r.compiles THEN {<<"C01", "does-not-compile", "default-rebuild", r.id>>}
   ELSE IF r.res.nil \/ r.res.A # 100 THEN {<<"C11", "nil-source-does-not-return-constructor-result", "rebuilt-method", r.id>>} ELSE {}
+\* C11 / C02: `default FUNC` on a method whose top-level rule does not take the constructor (a list method): the nested T -> *U
+\* elements are ordinary conversions -- non-nil pointers to the converted values, no panic
+ListFinger(r) ==
+  IF r.gen = "panic" THEN {<<"C13", "generator-panic", r.why, r.id>>}
+  ELSE IF r.gen # "ok" THEN {}                                               \* the statement does not say that default is allowed on a list method
+  ELSE IF ~r.compiles THEN {<<"C01", "does-not-compile", "default-list", r.id>>}
+  ELSE IF r.panic THEN {<<"C11", "method-with-default-panics", "nested-pointer-target-below-list-method", r.id>>, <<"C02", "panic", "default-on-list-method", r.id>>}
+  ELSE IF r.res.nil \/ r.res.A # 5 THEN {<<"C11", "value-to-pointer-not-converted", "nested-pointer-target-below-list-method", r.id>>} ELSE {}
 \* C11, default constructors: res = [nil, A, B] of the returned struct (nil: a nil pointer was returned)
 DMatch(e, got) == e = -1 \/ e = got
 DefFinger(r) ==
@@ -65,7 +73,7 @@ Finger18(r) ==
        \cup (IF \E i \in DOMAIN r.decls : r.decls[i] \notin {"struct", "method"} THEN {<<"C18", "extra-top-level-declaration", r.kind, r.id>>} ELSE {})
 Finger0(r) == IF r.kind = "genfile" THEN {}
               ELSE IF r.kind = "update-iface" THEN (IF r.gen = "ok" /\ r.compiles THEN {} ELSE {<<"C10", "update-method-rejected", "interface-member", r.id>>})
-              ELSE IF r.kind = "field" THEN FieldFinger(r) ELSE IF r.kind = "acc" THEN AccFinger(r) ELSE IF r.kind = "fieldx" THEN XFinger(r) ELSE IF r.kind = "default-rebuild" THEN RebuildFinger(r) ELSE IF r.kind = "default" THEN DefFinger(r) ELSE UpdFinger(r)
+              ELSE IF r.kind = "field" THEN FieldFinger(r) ELSE IF r.kind = "acc" THEN AccFinger(r) ELSE IF r.kind = "fieldx" THEN XFinger(r) ELSE IF r.kind = "default-rebuild" THEN RebuildFinger(r) ELSE IF r.kind = "default-list" THEN ListFinger(r) ELSE IF r.kind = "default" THEN DefFinger(r) ELSE UpdFinger(r)
 VARIABLES l, bad
 Init == l = 1 /\ bad = {}
 Next == /\ l <= Len(Obs)
